@@ -215,6 +215,7 @@ Fixpoint ann (t : ty) (v : val) {struct t} : N :=
   | TArray _ t', VSeq l => suml (map (ann t') l)
   | TPair a b, VPair x y => ann a x + ann b y
   | TBox sz t', _ => sz + ann t' v
+  | TBits B _, VBits l => (N.of_nat (length l) + 8 * B - 1) / (8 * B) * B
   | TEnum vs, VVar k v' => ann_vars vs k v'
   | _, _ => 0
   end
@@ -286,34 +287,34 @@ Proof.
 Qed.
 
 Theorem ann_mut :
-  (forall t, nobits t = true -> wf_ty t = true -> AN t) /\
-  (forall vs, nobits_vars vs = true -> wf_vars_ty vs = true ->
+  (forall t, wf_ty t = true -> AN t) /\
+  (forall vs, wf_vars_ty vs = true ->
      forall k v bs, idx_ok vs = true -> wf_vars vs k v = true -> enc_vars spec_c vs k v = EOk bs ->
      exists i pb, bs = byte_of i :: pb /\ i < 256 /\
        forall known rest k0, atr (dec_vars vs i k0) known (pb ++ rest) = ann_vars vs k v).
 Proof.
   pose proof (proj1 roundtrip_mut) as RTall.
-  apply ty_variants_ind; unfold AN; cbn [nobits nobits_vars wf_ty wf_vars_ty].
-  - (* TUnit *) intros _ _ v bs _ _ known rest. destruct v; reflexivity.
-  - (* TBool *) intros _ _ v bs _ _ known rest. destruct v; cbn [ann]; apply noalloc_atr; cbn [dec]; na.
-  - (* TPrim *) intros B _ _ v bs _ _ known rest. destruct v; cbn [ann]; apply noalloc_atr; cbn [dec]; (apply noalloc_bind; [apply noalloc_dec_prim|na]).
-  - (* TCompact *) intros B _ _ v bs _ _ known rest. destruct v; cbn [ann]; apply noalloc_atr; cbn [dec]; (apply noalloc_bind; [apply noalloc_dec_compact|na]).
-  - (* TNonZero *) intros B _ _ v bs _ _ known rest. destruct v; cbn [ann]; apply noalloc_atr; cbn [dec]; (apply noalloc_bind; [apply noalloc_dec_prim|na]).
-  - (* TOption *) intros t IH Hb Ht [ | | | |v'| | | | | | ] bs; cbn [wf enc dec ann]; try discriminate.
+  apply ty_variants_ind; unfold AN; cbn [wf_ty wf_vars_ty].
+  - (* TUnit *) intros _ v bs _ _ known rest. destruct v; reflexivity.
+  - (* TBool *) intros _ v bs _ _ known rest. destruct v; cbn [ann]; apply noalloc_atr; cbn [dec]; na.
+  - (* TPrim *) intros B _ v bs _ _ known rest. destruct v; cbn [ann]; apply noalloc_atr; cbn [dec]; (apply noalloc_bind; [apply noalloc_dec_prim|na]).
+  - (* TCompact *) intros B _ v bs _ _ known rest. destruct v; cbn [ann]; apply noalloc_atr; cbn [dec]; (apply noalloc_bind; [apply noalloc_dec_compact|na]).
+  - (* TNonZero *) intros B _ v bs _ _ known rest. destruct v; cbn [ann]; apply noalloc_atr; cbn [dec]; (apply noalloc_bind; [apply noalloc_dec_prim|na]).
+  - (* TOption *) intros t IH Ht [ | | | |v'| | | | | | ] bs; cbn [wf enc dec ann]; try discriminate.
     + intros _ [= <-] known rest. cbn [app]. rewrite atr_read_byte. reflexivity.
     + intros Hv He known rest. apply eapp_ok in He as (x & y & [= <-] & Hy & ->). cbn [app].
       rewrite atr_read_byte. cbn [Byte.to_N].
-      rewrite (atr_bind_ok _ _ (dec t) _ known _ _ _ (RTall t Hb Ht v' y Hv Hy known rest)), atr_ret, N.add_0_r.
+      rewrite (atr_bind_ok _ _ (dec t) _ known _ _ _ (RTall t Ht v' y Hv Hy known rest)), atr_ret, N.add_0_r.
       now apply IH.
-  - (* TResult *) intros t IHt e IHe Hb H. apply andb_prop in Hb as [Hbt Hbe]. apply andb_prop in H as [Ht He].
+  - (* TResult *) intros t IHt e IHe H. apply andb_prop in H as [Ht He].
     intros [ | | | | |v'|v'| | | | ] bs; cbn [wf enc dec ann]; try discriminate; intros Hv Hx known rest;
       apply eapp_ok in Hx as (x & y & [= <-] & Hy & ->); cbn [app]; rewrite atr_read_byte; cbn [Byte.to_N].
-    + rewrite (atr_bind_ok _ _ (dec t) _ known _ _ _ (RTall t Hbt Ht v' y Hv Hy known rest)), atr_ret, N.add_0_r. now apply IHt.
-    + rewrite (atr_bind_ok _ _ (dec e) _ known _ _ _ (RTall e Hbe He v' y Hv Hy known rest)), atr_ret, N.add_0_r. now apply IHe.
-  - (* TOptionBool *) intros _ _ v bs _ _ known rest. destruct v; cbn [ann]; apply noalloc_atr; cbn [dec]; na.
-  - (* TColl *) intros k sz t IH Hb H. apply andb_prop in H as [Ht Hsz]. apply N.leb_le in Hsz.
+    + rewrite (atr_bind_ok _ _ (dec t) _ known _ _ _ (RTall t Ht v' y Hv Hy known rest)), atr_ret, N.add_0_r. now apply IHt.
+    + rewrite (atr_bind_ok _ _ (dec e) _ known _ _ _ (RTall e He v' y Hv Hy known rest)), atr_ret, N.add_0_r. now apply IHe.
+  - (* TOptionBool *) intros _ v bs _ _ known rest. destruct v; cbn [ann]; apply noalloc_atr; cbn [dec]; na.
+  - (* TColl *) intros k sz t IH H. apply andb_prop in H as [Ht Hsz]. apply N.leb_le in Hsz.
     intros v bs Hw He known rest.
-    pose proof (RTall (TColl k sz t) Hb ltac:(cbn [wf_ty]; rewrite Ht; cbn [andb]; now apply N.leb_le) v bs Hw He known rest) as Hwhole.
+    pose proof (RTall (TColl k sz t) ltac:(cbn [wf_ty]; rewrite Ht; cbn [andb]; now apply N.leb_le) v bs Hw He known rest) as Hwhole.
     destruct v as [ | | | | | | |l| | | ]; cbn [wf enc] in Hw, He; try discriminate.
     apply andb_prop in Hw as [Hw Hsorted]. apply andb_prop in Hw as [Hl Hn].
     apply eapp_ok in He as (x & y & Hx & Hy & ->). rewrite (enc_count_spec _ Hn) in Hx. injection Hx as <-.
@@ -321,7 +322,7 @@ Proof.
     pose proof (rt_compact 4 _ known (y ++ rest) okwidth4 (u32_fits _ Hn)) as Hc.
     rewrite (atr_bind_ok _ _ (dec_compact 4) _ known _ _ _ Hc), (noalloc_atr _ _ known (noalloc_dec_compact 4)), N.add_0_l.
     rewrite runo_bind, Hc in Hwhole.
-    pose proof (rt_items t l y known rest (RTall t Hb Ht) Hl Hy) as Hrun.
+    pose proof (rt_items t l y known rest (RTall t Ht) Hl Hy) as Hrun.
     set (n := N.of_nat (length l)) in *.
     (* the wrapped element-wise body of Vec / BinaryHeap *)
     assert (Hgen: forall (fin : list val -> val),
@@ -337,7 +338,7 @@ Proof.
       rewrite atr_emit. cbn [asum]. rewrite N.add_0_l.
       rewrite (atr_bind_ok _ _ _ _ known _ _ _ Hch), atr_emit, atr_ret. cbn [asum]. rewrite !N.add_0_r.
       rewrite (seq_atr _ _ _ known _ _ _ (seq_chunked sz n (dec t) Hsz) Hch).
-      apply (an_items t l y known rest sz (RTall t Hb Ht) (IH Hb Ht) Hl Hy). }
+      apply (an_items t l y known rest sz (RTall t Ht) (IH Ht) Hl Hy). }
     assert (Hnodes: forall (a : N) (fin : list val -> val),
               atr (emit HDescend ;;; emit (HAlloc a) ;;; items <- rep n (node sz (dec t)) ;; emit HAscend ;;; Ret (fin items)) known (y ++ rest)
               = a + suml (map (ann t) l)).
@@ -345,7 +346,7 @@ Proof.
       assert (Hr: runo (rep n (node sz (dec t))) known (y ++ rest) = OOk (map (canon t) l) rest)
         by (rewrite (oeq_rep _ _ _ _ (oeq_node sz (dec t))); exact Hrun).
       rewrite (atr_bind_ok _ _ _ _ known _ _ _ Hr), atr_emit, atr_ret. cbn [asum]. rewrite !N.add_0_r.
-      apply (an_items0 t l y known rest _ (RTall t Hb Ht) (IH Hb Ht) Hl Hy). apply seq_node. }
+      apply (an_items0 t l y known rest _ (RTall t Ht) (IH Ht) Hl Hy). apply seq_node. }
     cbn [ann]. fold n.
     assert (Hsat: sat_mul n sz = n * sz).
     { unfold sat_mul. apply N.min_r. apply N.leb_le in Hn. unfold u32max in Hn. unfold max_prealloc, usize_max, u64max in *. subst n. nia. }
@@ -367,8 +368,8 @@ Proof.
     + (* CList *) rewrite <- Hsat. apply Hnodes.
     + (* CSet *) apply Hnodes.
     + (* CMap *) apply Hnodes.
-  - (* TStr *) intros _ _ v bs Hw He known rest.
-    pose proof (RTall TStr eq_refl eq_refl v bs Hw He known rest) as Hwhole.
+  - (* TStr *) intros _ v bs Hw He known rest.
+    pose proof (RTall TStr eq_refl v bs Hw He known rest) as Hwhole.
     destruct v as [ | | | | | | |l| | | ]; cbn [wf enc] in Hw, He; try discriminate.
     apply andb_prop in Hw as [Hn Hu].
     destruct (bytes_of_vals l) as [bl|] eqn:Eb; [|discriminate].
@@ -383,43 +384,58 @@ Proof.
     assert (Hz: atr (if utf8_valid bb then Ret (VSeq (map (fun b => VN (to_N b)) bb)) else Fail) known r2 = 0)
       by (destruct (utf8_valid bb); reflexivity).
     rewrite Hz. lia.
-  - (* TArray *) intros n t IH Hb Ht [ | | | | | | |l| | | ] bs; cbn [wf enc]; try discriminate.
+  - (* TArray *) intros n t IH Ht [ | | | | | | |l| | | ] bs; cbn [wf enc]; try discriminate.
     intros Hw He known rest. apply andb_prop in Hw as [Hl Hn]. rewrite Hn in He. apply N.eqb_eq in Hn. subst n.
-    pose proof (rt_items t l bs known rest (RTall t Hb Ht) Hl He) as Hrun.
+    pose proof (rt_items t l bs known rest (RTall t Ht) Hl He) as Hrun.
     cbn [dec ann].
     assert (Hgen: atr (items <- rep (N.of_nat (length l)) (dec t) ;; Ret (VSeq items)) known (bs ++ rest) = suml (map (ann t) l)).
-    { rewrite (atr_bind_ok _ _ _ _ known _ _ _ Hrun), atr_ret, N.add_0_r. apply (an_items0 t l bs known rest _ (RTall t Hb Ht) (IH Hb Ht) Hl He). apply seq_refl. }
+    { rewrite (atr_bind_ok _ _ _ _ known _ _ _ Hrun), atr_ret, N.add_0_r. apply (an_items0 t l bs known rest _ (RTall t Ht) (IH Ht) Hl He). apply seq_refl. }
     destruct t; try exact Hgen.
     rewrite ann_prim_zero. apply noalloc_atr. na.
-  - (* TPair *) intros a IHa b IHb Hb H. apply andb_prop in Hb as [Hba Hbb]. apply andb_prop in H as [Ha Hb'].
+  - (* TPair *) intros a IHa b IHb H. apply andb_prop in H as [Ha Hb'].
     intros [ | | | | | | | |x y| | ] bs; cbn [wf enc]; try discriminate.
     intros Hw He known rest. apply andb_prop in Hw as [Hx Hy]. apply eapp_ok in He as (bx & by' & Ex & Ey & ->).
     cbn [dec ann]. rewrite <- app_assoc.
-    rewrite (atr_bind_ok _ _ (dec a) _ known _ _ _ (RTall a Hba Ha x bx Hx Ex known (by' ++ rest))).
-    rewrite (atr_bind_ok _ _ (dec b) _ known _ _ _ (RTall b Hbb Hb' y by' Hy Ey known rest)), atr_ret, N.add_0_r.
+    rewrite (atr_bind_ok _ _ (dec a) _ known _ _ _ (RTall a Ha x bx Hx Ex known (by' ++ rest))).
+    rewrite (atr_bind_ok _ _ (dec b) _ known _ _ _ (RTall b Hb' y by' Hy Ey known rest)), atr_ret, N.add_0_r.
     f_equal; [now apply IHa|now apply IHb].
-  - (* TBox *) intros sz t IH Hb Ht v bs Hw He known rest. cbn [wf enc dec ann] in *.
+  - (* TBox *) intros sz t IH Ht v bs Hw He known rest. cbn [wf enc dec ann] in *.
     rewrite !atr_emit. cbn [asum]. rewrite N.add_0_l, !N.add_0_r. f_equal.
-    rewrite (atr_bind_ok _ _ (dec t) _ known _ _ _ (RTall t Hb Ht v bs Hw He known rest)), atr_emit, atr_ret. cbn [asum].
+    rewrite (atr_bind_ok _ _ (dec t) _ known _ _ _ (RTall t Ht v bs Hw He known rest)), atr_emit, atr_ret. cbn [asum].
     rewrite !N.add_0_r. now apply IH.
-  - (* TDuration *) intros _ _ v bs _ _ known rest. destruct v; cbn [ann]; apply noalloc_atr; cbn [dec]; na.
-  - (* TBits *) intros B msb Hb. discriminate.
-  - (* TEnum *) intros vs IH Hb Hvs [ | | | | | | | | | |k v'] bs; cbn [wf enc]; try discriminate.
+  - (* TDuration *) intros _ v bs _ _ known rest. destruct v; cbn [ann]; apply noalloc_atr; cbn [dec]; na.
+  - (* TBits *) intros B msb H v bs Hw He known rest.
+    pose proof (RTall (TBits B msb) H v bs Hw He known rest) as Hwhole.
+    destruct v as [ | | | | | | | | |l| ]; cbn [wf enc] in Hw, He; try discriminate.
+    apply andb_prop in Hw as [Hw Hlen]. apply andb_prop in Hw as [HB HB8]. apply N.ltb_lt in Hlen.
+    destruct (N.ltb_spec (2 ^ 29 - 1) (N.of_nat (length l))) as [Hbig|_]; [change (2 ^ 29) with 536870912 in *; lia|].
+    apply eapp_ok in He as (x & y & Hx & [= <-] & ->). unfold spec_c in Hx. injection Hx as <-.
+    cbn [dec ann] in *. rewrite <- app_assoc in *.
+    assert (Hfit: N.of_nat (length l) < 2 ^ (8 * 4)) by (change (2 ^ (8 * 4)) with 4294967296; change (2 ^ 29) with 536870912 in Hlen; lia).
+    pose proof (rt_compact 4 _ known (concat (map (fun c => le_enc (N.to_nat B) (word_of_chunk B msb c)) (chunks (N.to_nat (8 * B)) l)) ++ rest) okwidth4 Hfit) as Hc.
+    rewrite (atr_bind_ok _ _ _ _ known _ _ _ Hc), (noalloc_atr _ _ known (noalloc_dec_compact 4)), N.add_0_l.
+    rewrite runo_bind, Hc in Hwhole.
+    destruct (N.ltb_spec (2 ^ 29 - 1) (N.of_nat (length l))) as [Hbig|_]; [change (2 ^ 29) with 536870912 in *; lia|].
+    apply bind_ok_inv in Hwhole as (bb & r2 & E2 & Hwhole).
+    rewrite (atr_bind_ok _ _ _ _ known _ _ _ E2).
+    rewrite (csum_bulk B _ (okB_small B HB) known _ _ _ E2).
+    cbv zeta. destruct (_ <? _); cbn [atr runt snd asum]; lia.
+  - (* TEnum *) intros vs IH Hvs [ | | | | | | | | | |k v'] bs; cbn [wf enc]; try discriminate.
     intros Hw He known rest. apply andb_prop in Hw as [Hidx Hw].
-    destruct (IH Hb Hvs k v' bs Hidx Hw He) as (i & pb & -> & Hi & Hdec).
+    destruct (IH Hvs k v' bs Hidx Hw He) as (i & pb & -> & Hi & Hdec).
     cbn [dec app ann]. rewrite atr_read_byte.
     rewrite to_byte_of, N.mod_small by exact Hi. apply (Hdec known rest 0%nat).
-  - (* VsNil *) intros _ _ k v bs _ H. discriminate.
-  - (* VsCons *) intros idx t IHt vs IHvs Hb H. apply andb_prop in Hb as [Hbt Hbvs]. apply andb_prop in H as [Ht Hvs].
+  - (* VsNil *) intros _ k v bs _ H. discriminate.
+  - (* VsCons *) intros idx t IHt vs IHvs H. apply andb_prop in H as [Ht Hvs].
     intros [|k] v bs Hidx Hw He; cbn [idx_ok wf_vars enc_vars ann_vars] in *.
     + apply andb_prop in Hidx as [Hidx _]. apply andb_prop in Hidx as [Hlt _]. rewrite Hlt in He.
       apply eapp_ok in He as (x & y & [= <-] & Hy & ->). apply N.ltb_lt in Hlt.
       exists idx, y. split; [reflexivity|split; [exact Hlt|]].
       intros known rest k0. cbn [dec_vars]. rewrite N.mod_small by exact Hlt. rewrite N.eqb_refl.
-      rewrite (atr_bind_ok _ _ (dec t) _ known _ _ _ (RTall t Hbt Ht v y Hw Hy known rest)), atr_ret, N.add_0_r. now apply IHt.
+      rewrite (atr_bind_ok _ _ (dec t) _ known _ _ _ (RTall t Ht v y Hw Hy known rest)), atr_ret, N.add_0_r. now apply IHt.
     + apply andb_prop in Hidx as [Hidx Hrest]. apply andb_prop in Hidx as [Hlt Hnotin].
-      destruct (IHvs Hbvs Hvs k v bs Hrest Hw He) as (i & pb & -> & Hi & Hdec).
-      destruct (proj2 roundtrip_mut vs Hbvs Hvs k v (byte_of i :: pb) Hrest Hw He) as (i' & pb' & Heq & Hi' & Hin & _).
+      destruct (IHvs Hvs k v bs Hrest Hw He) as (i & pb & -> & Hi & Hdec).
+      destruct (proj2 roundtrip_mut vs Hvs k v (byte_of i :: pb) Hrest Hw He) as (i' & pb' & Heq & Hi' & Hin & _).
       injection Heq as Hbi Hpb. assert (i = i').
       { apply (f_equal Byte.to_N) in Hbi. rewrite !to_byte_of, !N.mod_small in Hbi by assumption. exact Hbi. }
       subst i'. exists i, pb. split; [reflexivity|split; [exact Hi|]].
@@ -429,28 +445,28 @@ Qed.
 
 (* ---------- the theorems ---------- *)
 Theorem announced_is_closed_form t v bs known rest :
-  nobits t = true -> wf_ty t = true -> wf t v = true -> enc_spec t v = EOk bs ->
+  wf_ty t = true -> wf t v = true -> enc_spec t v = EOk bs ->
   asum (snd (runt (dec t) known (bs ++ rest))) = ann t v.
-Proof. intros Hb Ht Hw He. exact (proj1 ann_mut t Hb Ht v bs Hw He known rest). Qed.
+Proof. intros Ht Hw He. exact (proj1 ann_mut t Ht v bs Hw He known rest). Qed.
 
 Theorem tracked_usage_is_closed_form t v bs known rest :
-  nobits t = true -> wf_ty t = true -> wf t v = true -> enc_spec t v = EOk bs -> ann t v <= usize_max ->
+  wf_ty t = true -> wf t v = true -> enc_spec t v = EOk bs -> ann t v <= usize_max ->
   used_after 0 (snd (runt (dec t) known (bs ++ rest))) = ann t v.
 Proof.
-  intros Hb Ht Hw He Hu. rewrite used_after_asum; rewrite (announced_is_closed_form t v bs known rest Hb Ht Hw He); lia.
+  intros Ht Hw He Hu. rewrite used_after_asum; rewrite (announced_is_closed_form t v bs known rest Ht Hw He); lia.
 Qed.
 
 (* memory-limited decoding of an encoding: the value when L exceeds the closed form, an error when
    the closed form is positive and L does not *)
 Theorem mem_limit_on_encodings t v bs known rest L :
-  nobits t = true -> wf_ty t = true -> wf t v = true -> enc_spec t v = EOk bs -> ann t v <= usize_max ->
+  wf_ty t = true -> wf t v = true -> enc_spec t v = EOk bs -> ann t v <= usize_max ->
   (ann t v < L -> exists u, run (memmon L) (dec t) known (bs ++ rest) 0 = ROk (canon t v) rest u) /\
   (0 < ann t v -> L <= ann t v -> exists u, run (memmon L) (dec t) known (bs ++ rest) 0 = RErr u).
 Proof.
-  intros Hb Ht Hw He Hu.
+  intros Ht Hw He Hu.
   pose proof (mem_limit_threshold _ (dec t) known (bs ++ rest) L) as H.
-  pose proof (tracked_usage_is_closed_form t v bs known rest Hb Ht Hw He Hu) as HU.
-  pose proof (roundtrip t v bs known rest Hb Ht Hw He) as Hr. rewrite <- runt_fst in Hr.
+  pose proof (tracked_usage_is_closed_form t v bs known rest Ht Hw He Hu) as HU.
+  pose proof (roundtrip t v bs known rest Ht Hw He) as Hr. rewrite <- runt_fst in Hr.
   destruct (runt (dec t) known (bs ++ rest)) as [o evs]. cbn [fst snd] in *. subst o. cbv zeta in H.
   rewrite HU in H. destruct H as (H1 & H2 & H3). split.
   - intros HL. exact (H1 HL).
@@ -477,6 +493,7 @@ Fixpoint payload (t : ty) (v : val) {struct t} : N :=
   | TArray _ t', VSeq l => suml (map (payload t') l)
   | TPair a b, VPair x y => payload a x + payload b y
   | TBox sz t', _ => sz + payload t' v
+  | TBits B _, VBits l => (N.of_nat (length l) + 8 * B - 1) / (8 * B) * B
   | TEnum vs, VVar k v' => payload_vars vs k v'
   | _, _ => 0
   end
@@ -536,7 +553,7 @@ Proof.
     apply andb_prop in Hw as [Hx Hy]. specialize (IHa Ha _ Hx). specialize (IHb Hb _ Hy). lia.
   - intros sz t IH Ht v Hw. cbn [payload ann wf] in *. specialize (IH Ht v Hw). lia.
   - intros _ v _. destruct v; cbn; lia.
-  - intros B msb _ v _. destruct v; cbn; lia.
+  - intros B msb _ v _. destruct v; cbn [payload ann]; lia.
   - intros vs IH Hvs v Hw. destruct v; cbn [payload ann wf] in *; try lia. apply andb_prop in Hw as [_ Hw]. now apply IH.
   - intros _ k v Hw. cbn in *. lia.
   - intros idx t IHt vs IHvs H k v Hw. apply andb_prop in H as [Ht Hvs]. destruct k; cbn [payload_vars ann_vars wf_vars] in *; [now apply IHt|now apply IHvs].
